@@ -141,8 +141,10 @@ def judge (f out : List String) : Verdict :=
     let expected := if c.circ then digestW c.g w n else digestLinW c.g w n
     let expectedLin := digestLinW c.g w n
     let inDom := c.dir && (c.name == "" || isBuiltin) &&
-      (if c.kind == "hist" then wfLayoutW c.g w n && wfLinearW c.g w n
-       else if c.circ then wfLayoutW c.g w n else wfLinearW c.g w n)
+      (if c.kind == "hist" then inQuantifierW c.g w n && inQuantifierLinW c.g w n
+       else if c.circ then inQuantifierW c.g w n else inQuantifierLinW c.g w n)
+    -- coincident forward/reverse cuts (blunt cutters): outside the quantifier, correspondence only
+    let coincident := if c.circ then !noCoincident c.g w n else !noCoincidentLin c.g w n
     let decoded := pairs.map fun (d, _) => decFragments d
     -- ByName must agree with the direct call for a built-in enzyme
     let byNameOk := pairs.all fun (d, n) => if isBuiltin && c.kind != "hist" then sameField d n else true
@@ -174,7 +176,7 @@ def judge (f out : List String) : Verdict :=
     let cls := (if nsites == 0 then "triv:" else "") ++ c.kind ++ (if c.kind == "case" then (if c.circ then "C" else "L") else "")
                 ++ "/" ++ enz ++ (if c.dir then "" else "/nondir")
                 ++ "/s" ++ toString nsites ++ "f" ++ toString expected.length
-                ++ (if c.g.oh == 0 then "/blunt" else "") ++ (if orderDiffers then " order-differs" else "")
+                ++ (if c.g.oh == 0 then "/blunt" else "") ++ (if coincident then "/coincident" else "") ++ (if orderDiffers then " order-differs" else "")
     { corr := corr, judge := if inDom then some j else none, cls := cls,
       detail := if corr && (j || !inDom) then "" else
         "model: " ++ lineOf m ++ " | spec: " ++ encFragments expected }
